@@ -147,6 +147,82 @@ pub fn run_case(c: &Sexp) -> Sexp {
             };
             Sexp::tag("obs", vec![schema_to_sexp(&schema), value_to_sexp(&value), enc, dec, alt])
         }
+        // (datum-seq #schema-json validate01 VALUE...) -> (obs SCHEMA (ok VALUE #bytes)|(err VALUE) ...)
+        //   ONE GenericDatumWriter for the whole sequence: what a failed write leaves behind must not reach later data
+        "datum-seq" => {
+            if a.len() < 2 {
+                return bad("arity");
+            }
+            let schema = match parse_schema(&a[0]) {
+                Ok(s) => s,
+                Err(e) => return e,
+            };
+            let validate = a[1].as_i64().unwrap_or(1) != 0;
+            let mut values = Vec::new();
+            for x in &a[2..] {
+                match sexp_to_value(x) {
+                    Ok(v) => values.push(v),
+                    Err(e) => return bad(&e),
+                }
+            }
+            guarded(|| {
+                let w = match GenericDatumWriter::builder(&schema).validate(validate).build() {
+                    Ok(w) => w,
+                    Err(_) => return Sexp::tag("writer-err", vec![]),
+                };
+                let mut out = vec![schema_to_sexp(&schema)];
+                for (i, v) in values.iter().enumerate() {
+                    let mut bytes: Vec<u8> = Vec::new();
+                    // alternate between the entry points that share the writer
+                    let r = if i % 2 == 0 { w.write_value_ref(&mut bytes, v).map(|_| ()) } else { w.write_value_to_vec(v.clone()).map(|b| bytes = b) };
+                    out.push(match r {
+                        Ok(()) => ok(vec![value_to_sexp(v), Sexp::hex(&bytes)]),
+                        Err(_) => Sexp::tag("err", vec![value_to_sexp(v)]),
+                    });
+                }
+                Sexp::tag("obs", out)
+            })
+        }
+        // (cheader2 #schema-A #schema-B) -> (obs SCHEMA-B (ok SCHEMA-READ-BACK)|(err))
+        //   two container writers in one process, A first; the header of B's file must carry B
+        "cheader2" => {
+            if a.len() != 2 {
+                return bad("arity");
+            }
+            let sa = match parse_schema(&a[0]) {
+                Ok(s) => s,
+                Err(e) => return e,
+            };
+            let sb = match parse_schema(&a[1]) {
+                Ok(s) => s,
+                Err(e) => return e,
+            };
+            let back = guarded(|| {
+                let mut wa = match apache_avro::Writer::builder().schema(&sa).writer(Vec::<u8>::new()).build() {
+                    Ok(w) => w,
+                    Err(_) => return Sexp::tag("writer-err", vec![]),
+                };
+                if wa.flush().is_err() {
+                    return err();
+                }
+                let mut wb = match apache_avro::Writer::builder().schema(&sb).writer(Vec::<u8>::new()).build() {
+                    Ok(w) => w,
+                    Err(_) => return Sexp::tag("writer-err", vec![]),
+                };
+                if wb.flush().is_err() {
+                    return err();
+                }
+                let file = match wb.into_inner() {
+                    Ok(f) => f,
+                    Err(_) => return err(),
+                };
+                match apache_avro::Reader::new(&file[..]) {
+                    Ok(r) => ok(vec![schema_to_sexp(r.writer_schema())]),
+                    Err(_) => err(),
+                }
+            });
+            Sexp::tag("obs", vec![schema_to_sexp(&sb), back])
+        }
         // (decode #schema-json #bytes) -> (obs SCHEMA DEC)
         "decode" => {
             if a.len() != 2 {
